@@ -486,7 +486,7 @@ def registry():
         for name, fs in c._functions.items():
             for f in fs:
                 params = ' '.join(p.name for p in sorted(f.parameters.values(), key=lambda p: (p.position, p.name))
-                                  if p.name != 'context' or True)
+                                 )
                 out.append(('%s.%s@%s' % (mod.__name__.rsplit('.', 1)[-1], f.payload.__name__, name), params))
     return sorted(out)
 
